@@ -570,6 +570,7 @@ def gen_growth(rng):
 
 # ====================================================================== filestore suite
 ALPHA = b"abcdefghijklmnopqrstuvwxyz0123456789"
+U64MAX = (1 << 64) - 1
 FS_HEADER = ("From RN Require Import Base.Res Codec.Varint Codec.BufReader Codec.Script RaftLog.LogFile "
              "RaftLog.Script RaftLog.LogManager RaftLog.ManagerScript.\nOpen Scope N_scope.\n")
 
@@ -712,7 +713,9 @@ class FsHist:
         return self
 
     def can_cut(self):
-        lo = (self.ptr + 1) if self.ptr is not None else self.first
+        """cuts and new pointers stay above every pointer, also a pending (built, not yet installed) one"""
+        marks = [x for x in (self.ptr, self.pending_bptr[0] if self.pending_bptr else None) if x is not None]
+        lo = (max(marks) + 1) if marks else self.first
         return lo, self.end
 
     def ptr_at(self, p, pid, install=True):
@@ -727,6 +730,15 @@ class FsHist:
             if self.pending_bptr is not None:
                 self._apply_ptr(*self.pending_bptr)
             self.pending_bptr = (p, term, pid)
+        return self
+
+    def install_ahead(self, p, term, pid):
+        """InstallSnapshot on a follower whose log ends below the snapshot: delete_through = None ->
+        SplitOff(u64::MAX) drops the whole local log, then the pointer starts a new one"""
+        self.ops.append(["so", U64MAX])
+        self.ops.append(["ptr", p, term, pid])
+        self.ents = [[p, term] + dg(fs_ptr_value(pid))]
+        self.ptr = p
         return self
 
     def _apply_ptr(self, p, term, pid):
@@ -822,6 +834,10 @@ def oracle_filestore(c, r):
             ents = [[p, term] + dg(fs_ptr_value(pid))] + [e for e in ents if e[0] > p]
             ptr = p
             feats.add("pointer")
+        elif k == "so":
+            # compaction: entries below the split-off index are removed (the scripts always follow it
+            # with the pointer of the snapshot that covers them)
+            ents = [e for e in ents if e[0] >= op[1]]
         elif k == "reopen":
             after_reopen = True
             stale = False
@@ -884,6 +900,19 @@ def gen_fs_pointer_shapes(rng):
     h.b(5).check()
     h.ptr_at(h.end - 1, 7).check().reopen().check().full().a().check().reopen().check()
     cases.append(h.case("pointer-at-last-entry"))
+    # an installed snapshot ahead of the local log (lead's repair b4420c3): the log restarts at the pointer
+    for reopen_first in (False, True):
+        h = FsHist(rng)
+        h.b(rng.randrange(3, 12)).check()
+        h.install_ahead(h.end + rng.randrange(0, 30), h.term + 1, rng.randrange(1, 99))
+        h.term += 1
+        h.check().full()
+        if reopen_first:
+            h.reopen().check().full()
+        h.a().a().check().b(3).check().reopen().check().full()
+        lo, e = h.can_cut()
+        h.d(e - 1).check().a().check()
+        cases.append(h.case("pointer-install-ahead"))
     return cases
 
 
@@ -930,6 +959,9 @@ def gen_fs_random(rng, n, max_ops):
     for _ in range(n):
         limit = rng.choice([None, None, 43, 47])
         h = FsHist(rng, limit=limit, first=rng.choice([1, 1, 1, 2]))
+        # one pointer style per history: a pending BuildSnapshotPointerLog that is overtaken by an
+        # InstallSnapshotPointerLog would later install a pointer BELOW the newest one (out of scope)
+        install = rng.random() < 0.6
         h.b(rng.randrange(1, 6))
         for _ in range(rng.randrange(4, max_ops)):
             x = rng.random()
@@ -947,7 +979,7 @@ def gen_fs_random(rng, n, max_ops):
             elif x < 0.84:
                 lo, e = h.can_cut()
                 if e - 1 > lo:
-                    h.ptr_at(rng.randrange(lo, e - 1), rng.randrange(1, 500), install=rng.random() < 0.6)
+                    h.ptr_at(rng.randrange(lo, e - 1), rng.randrange(1, 500), install=install)
                     h.check()
             elif x < 0.88:
                 h.a_bad().check()
@@ -957,3 +989,86 @@ def gen_fs_random(rng, n, max_ops):
         h.check().full().reopen().check().full()
         cases.append(h.case("random-fs"))
     return cases
+
+
+# ====================================================================== shared check driver
+NONTRIVIAL_LF = {"record-ends-on-1024-boundary", "cut-on-index-boundary", "file-full", "reopen-at-0-mod-128",
+                 "index-step-3-byte-offset", "index-step-2-byte-offset", "cut"}
+
+
+def run_logfile_part(chk, cases, impl_only_cases, name, per=8):
+    """harness `logfile` on all cases; oracle on all; model comparison on `cases`.
+    Returns (evaluations, nontrivial set, mismatches, distribution)."""
+    impl = lib.harness_run_parallel("logfile", cases + impl_only_cases)
+    n_eval, nontrivial, dist = 0, set(), {}
+    for c, r in zip(cases + impl_only_cases, impl):
+        n_eval += 1
+        fails, feats = oracle_logfile(c, r)
+        feats |= layout_features(c)
+        g = c["tag"].split("-")[0]
+        dist[g] = dist.get(g, 0) + 1
+        if feats & NONTRIVIAL_LF:
+            nontrivial.add((c["tag"], tuple(sorted(feats))))
+        for key, what in fails:
+            chk.classify("logfile:" + key, "log file: " + what + " [case %s]" % c["tag"],
+                         {"suite": "logfile", "case": c, "impl": r, "oracle": what})
+    mism = 0
+    try:
+        vals = lib.coq_eval_sharded(name, LF_HEADER, [coq_logfile_case(c) for c in cases], per=per, timeout=1500)
+    except RuntimeError as ex:
+        chk.violation("model evaluation failed: %s" % str(ex)[:300],
+                      {"broken": "model evaluation", "log": str(ex)[-3000:]}, False)
+        vals = None
+    if vals is not None:
+        for c, r, v in zip(cases, impl, vals):
+            m, ri = canon_lf_model(v), canon_lf_impl(c, r)
+            if m != ri:
+                mism += 1
+                fails, _ = oracle_logfile(c, r)
+                chk.violation("model != implementation (LogInnerManager, case %s): %s" % (c["tag"], lib.diff_first(m, ri)),
+                              {"suite": "logfile", "case": c, "model": m, "impl": ri,
+                               "correspondence": "RaftLog.LogFile", "oracle_failures": fails}, bool(fails))
+    return n_eval, nontrivial, mism, dist
+
+
+def run_filestore_part(chk, cases, name, per=4):
+    impl = lib.harness_run_parallel("filestore", cases, timeout=1800)
+    n_eval, nontrivial, dist = 0, set(), {}
+    for c, r in zip(cases, impl):
+        n_eval += 1
+        fails, feats = oracle_filestore(c, r)
+        g = c["tag"].split("-")[0]
+        dist[g] = dist.get(g, 0) + 1
+        if feats & {"multi-file", "pointer", "cut"}:
+            nontrivial.add((c["tag"], tuple(sorted(feats)), len(c["ops"])))
+        for key, what in fails:
+            chk.classify("filestore:" + key, "FileStore: " + what + " [case %s]" % c["tag"],
+                         {"suite": "filestore", "case": c, "impl": r, "oracle": what})
+    mism = 0
+    try:
+        vals = lib.coq_eval_sharded(name, FS_HEADER, [coq_filestore_case(c) for c in cases], per=per, timeout=1500)
+    except RuntimeError as ex:
+        chk.violation("model evaluation failed: %s" % str(ex)[:300],
+                      {"broken": "model evaluation", "log": str(ex)[-3000:]}, False)
+        vals = None
+    if vals is not None:
+        for c, r, v in zip(cases, impl, vals):
+            m, ri = canon_fs_model(v), canon_fs_impl(c, r)
+            if m != ri:
+                mism += 1
+                fails, _ = oracle_filestore(c, r)
+                chk.violation("model != implementation (RaftLogManager/FileStore, case %s): %s" % (c["tag"], lib.diff_first(m, ri)),
+                              {"suite": "filestore", "case": c, "model": m, "impl": ri,
+                               "correspondence": "RaftLog.LogManager", "oracle_failures": fails}, bool(fails))
+    return n_eval, nontrivial, mism, dist
+
+
+def known_finding_cases():
+    """the recorded, unrepaired finding classes: each is replayed so that the check reports it"""
+    # (index 0, term 0, empty value) encodes to the single byte 0 = the end marker: acknowledged, lost on reopen
+    return [{"start": 0, "pre_term": 0, "tag": "known-empty-record",
+             "ops": [["w", 0, 0, 0, 1], ["i"], ["o"], ["i"], ["r", 0, 5]]}]
+
+
+def short_case(c):
+    return {k: (v if k != "ops" else v[:10] + (["..."] if len(v) > 10 else [])) for k, v in c.items()}
